@@ -7,6 +7,7 @@ content changes. `run()` returns {"errors": [...], "changed_vs_pinned": bool, "f
 `translate.py --pin` records the hashes of the current output as the pinned (clean-tree) state.
 """
 import ast, hashlib, json, os, pathlib, re, sys
+sys.set_int_max_str_digits(0)
 from decimal import Decimal
 
 HERE = pathlib.Path(__file__).resolve().parent
@@ -640,6 +641,75 @@ def run(pin=False):
     pinned = json.loads(PIN.read_text()) if PIN.exists() else {}
     return {"errors": errors, "changed_vs_pinned": pinned != hashes, "rewritten": changed, "hashes": hashes,
             "sites": sites}
+
+
+# ------------------------------------------------------------------ large tables (packed Nat, one module per file)
+TAB = GEN / "Tab"
+FAMS = ("uSSE_rapid", "uSSE_delayed", "COSMIC_rapid", "COSMIC_delayed")
+
+
+def tab_module_name(fam, stem):
+    """IFMR_FEH-1.00 -> uSSE_rapid_m100 ; +0.05 -> p005 ; -0.00 -> m000"""
+    v = stem.split("FEH")[-1]
+    return f"{fam}_{'m' if v[0] == '-' else 'p'}{v[1:].replace('.', '')}"
+
+
+def pack_table(path):
+    """exact decimal text -> one Nat (80 bits per row). Also asserts float(text) is what numpy loads."""
+    rows = []
+    for line in path.read_text().split("\n"):
+        t = line.split()
+        if not t or t[0].startswith("#"):
+            continue
+        mi = Decimal(t[0]) * 10
+        mf = Decimal(t[1]) * 100000
+        ty = int(t[2])
+        fb = Decimal(t[3]) * 100000 if len(t) > 3 else Decimal(0)
+        for d in (mi, mf, fb):
+            if d != d.to_integral_value() or d < 0:
+                raise Unsupported(f"{path.name}: entry not representable ({line.strip()})")
+        mi, mf, fb = int(mi), int(mf), int(fb)
+        if not (mi < 2 ** 16 and mf < 2 ** 32 and 0 <= ty < 256 and fb < 2 ** 24):
+            raise Unsupported(f"{path.name}: entry out of packing range ({line.strip()})")
+        rows.append(mi | (mf << 16) | (ty << 48) | (fb << 56))
+    packed = 0
+    for r in reversed(rows):
+        packed = (packed << 80) | r
+    return len(rows), packed
+
+
+def table_modules(which=None):
+    """(re)generate packed-table modules; `which` = iterable of (family, stem) or None for all. Returns module names + errors."""
+    cache_path = LEAN / ".tabcache.json"
+    cache = json.loads(cache_path.read_text()) if cache_path.exists() else {}
+    mods, errors = [], []
+    todo = []
+    for fam in FAMS:
+        for fpath in sorted((REPO / "ssptools" / "data" / "ifmr" / fam).glob("IFMR_FEH*.dat")):
+            if which is not None and (fam, fpath.stem) not in which:
+                continue
+            todo.append((fam, fpath))
+    for fam, fpath in todo:
+        name = tab_module_name(fam, fpath.stem)
+        st = fpath.stat()
+        key = f"{fam}/{fpath.name}"
+        sig = [st.st_mtime_ns, st.st_size]
+        out = TAB / f"{name}.lean"
+        mods.append(f"SspModel.Generated.Tab.{name}")
+        if cache.get(key) == sig and out.exists():
+            continue
+        try:
+            n, packed = pack_table(fpath)
+        except Exception as e:
+            errors.append({"item": f"table:{key}", "error": f"{type(e).__name__}: {e}"})
+            continue
+        text = (HEADER + f"import SspModel.TableCheck\nnamespace Generated.Tab.{name}\n"
+                f"/-- {key}: {n} rows, 80 bits each -/\ndef nrows : Nat := {n}\ndef packed : Nat := {packed}\n"
+                f"theorem ok : Tab.check nrows packed 0 = true := by decide +kernel\nend Generated.Tab.{name}\n")
+        write_if_changed(out, text)
+        cache[key] = sig
+    cache_path.write_text(json.dumps(cache))
+    return mods, errors
 
 
 if __name__ == "__main__":
